@@ -2,6 +2,7 @@ import BfeVerif.Common.Proto
 import BfeVerif.C41.Model
 import BfeVerif.C41.Select
 import BfeVerif.C41.Serve
+import BfeVerif.C41.Reload
 /-!
   C41 driver.  One op = one (Config, Rule, ClientHello, session lookups) case, 23 space separated fields:
 
@@ -167,7 +168,16 @@ def oracle (c : Case) (impl : String) : String :=
     | _, _, _, _ => "FAIL:unparsable-result"
   else if impl == "alert=86" then
     if scsvDemandsRefusal c then "ok" else "FAIL:scsv-spurious"
-  else if impl.startsWith "alert=" then "ok"
+  else if impl == "alert=70" then
+    -- protocol_version only when the version really is unacceptable: below the minimum, or refused by the grade
+    let v := if c.hello.vers > c.cfg.maxVersion then c.cfg.maxVersion else c.hello.vers
+    let g := grade c
+    if c.hello.vers < c.cfg.minVersion || (g == gradeA && v < versionTLS10) || (g == gradeAPlus && v < versionTLS12) then "ok"
+    else "FAIL:alert-protocol-version-spurious"
+  else if impl == "alert=80" then
+    if c.cfg.hasCert then "FAIL:alert-internal-error-spurious" else "ok"
+  else if impl == "alert=40" then "ok"
+  else if impl.startsWith "alert=" then "FAIL:alert-unexpected"
   else "FAIL:unexpected-result"
 
 def tagsOf (c : Case) (m : Except Alert Params) : List String :=
@@ -513,9 +523,133 @@ def runEh (f : List String) (impl : String) : Ans :=
     | _, _, _ => { model := "bad-hello", verdict := "FAIL:hs-hello-not-captured" }
   | _ => { model := "bad-result", verdict := "FAIL:unparsable-result" }
 
+/-! ### stream `lh`: reload histories through the real loader -/
+
+def plusList (s : String) : List String := if s == "-" then [] else s.splitOn "+"
+
+def parseProdConf (s : String) : Option ProdConf :=
+  let q := s.splitOn ":"
+  if q.length < 8 then none
+  else
+    -- IPv6 vips contain colons: the vips field is everything between field 6 and the last field
+    let vips := ":".intercalate ((q.drop 6).dropLast)
+    some { name := q.getD 0 "", grade := q.getD 1 "", ca := q.getD 2 "0", chacha := q.getD 3 "0" == "1", protos := plusList (q.getD 4 "-"),
+           cert := q.getD 5 "", vips := plusList vips, snis := plusList (q.getLast?.getD "-") }
+
+def parseConfFile (s : String) : Option ConfFile :=
+  if s == "!json" then some .garbage
+  else if s == "!nover" then some .noVersion
+  else ((s.splitOn ";").mapM parseProdConf).map .products
+
+def lhCfg : Config := e2eCfg "e"
+
+def lhHello (vers : Nat) : Hello :=
+  { vers := vers, suites := [0xcca9, 0xc02b, 0xc009], compression := [0], curves := [23], points := [0],
+    alpn := ["h2", "spdy/3.1", "http/1.1"], npn := false, ticketSupported := false, ticketPresent := false, sessionIdPresent := false }
+
+def semi (s : String) : String := s.replace " " ";"
+
+/-- answer of a G / N item if `st` were the server's state -/
+def lhItem (certs : List (String × List String)) (st : TlsState) (kind : String) (vip sni : String) (vers : Nat) : String :=
+  let vipO := if vip == "-" then none else some vip
+  let name := undash sni
+  if kind == "G" then
+    let r := getRule (ruleTableOf st) vipO name
+    "g=" ++ r.1.grade ++ " ca=" ++ (if r.1.clientAuth then "1" else "0") ++ " cn=" ++ dash r.2 ++ " ch=" ++ (if r.1.chacha20 then "1" else "0") ++
+    " cert=" ++ certGet (certTableOf certs st) vipO name
+  else
+    match st with
+    | none => "noconf"
+    | some _ =>
+      let t := ruleTableOf st
+      let t' : RuleTable Rule := { vip := t.vip.map fun p => (p.1, p.2.1), sni := t.sni.map fun p => (p.1, p.2.1), dflt := t.dflt.1 }
+      semi (render (serve t' lhCfg vipO name (lhHello vers) { ticket := none, cache := none }))
+
+structure LhState where
+  st : TlsState := none
+  seen : List TlsState := []        -- states that were in force earlier, and configurations that were refused
+  out : List String := []
+  bad : Option String := none
+
+def runLh (f : List String) (impl : String) : Ans :=
+  match f with
+  | [certsS, confsS, script] =>
+    match (certsS.splitOn ";").mapM (fun e => match e.splitOn "=" with | [n, ns] => some (n, ns.splitOn "+") | _ => none),
+          (confsS.splitOn "|").mapM parseConfFile with
+    | some certs, some confs =>
+      let caFiles := ["A", "B"]
+      let items := script.splitOn ","
+      let implItems := impl.splitOn ","
+      let step (s : LhState) (p : String × String) : LhState :=
+        let it := p.1
+        let im := p.2
+        let flag (b : Option String) := if s.bad.isSome then s.bad else b
+        if it.startsWith "L" then
+          match (it.drop 1).toString.toNat? with
+          | some i =>
+            let c := confs.getD (i - 1) .garbage
+            let ok := i ≥ 1 && i ≤ confs.length && validConf certs caFiles c
+            let st' := if i ≥ 1 && i ≤ confs.length then loadStep certs caFiles s.st c else s.st
+            let refused : List TlsState := match c with | .products ps => if ok then [] else [some ps] | _ => []
+            -- host names are case-insensitive: two products claiming the same name in different spellings must be refused
+            -- (checkSniConf compares the spellings byte for byte; TLSServerRuleMap.Update then lower-cases both keys and the
+            -- Go map iteration order decides which product wins)
+            let caseDup := match c with
+              | .products ps => let l := ps.flatMap fun p => p.snis
+                                nodupB l && !nodupB (l.map lowerAscii)
+              | _ => false
+            { s with st := st', seen := s.seen ++ [s.st] ++ refused, out := s.out ++ [if ok then "ok" else "rej"],
+                     bad := flag (if im == "ok" && caseDup then some "sni-conf-case-duplicate-accepted"
+                                  else if im == "ok" && !ok then some "invalid-conf-accepted" else if im == "rej" && ok then some "valid-conf-refused" else none) }
+          | none => { s with out := s.out ++ ["bad-item"] }
+        else
+          let isN := it.startsWith "N"
+          let body := if it.startsWith "N!" then ((it.drop 2).toString.splitOn ":").drop 1 |> ":".intercalate
+                      else (it.drop 2).toString
+          let reloadTo : Option Nat := if it.startsWith "N!" then ((it.drop 2).toString.splitOn ":").head?.bind String.toNat? else none
+          let q := body.splitOn "/"
+          let vip := q.getD 0 "-"
+          let sni := q.getD 1 "-"
+          let vers := (parseHex (q.getD 2 "0303")).getD 0x0303
+          let kind := if isN then "N" else "G"
+          let expect := lhItem certs s.st kind vip sni vers
+          -- the specification: the answer is the one of the LAST ACCEPTED configuration; an answer that instead matches an
+          -- earlier state or a refused configuration is named as such
+          let stale := s.seen.any fun old => lhItem certs old kind vip sni vers == im
+          let bad := if im == expect then none
+                     else if stale then some "reload-stale-or-refused-conf-in-force" else some "reload-wrong-answer"
+          let st' := match reloadTo with
+            | some i => if s.st.isSome && i ≥ 1 && i ≤ confs.length then loadStep certs caFiles s.st (confs.getD (i - 1) .garbage) else s.st
+            | none => s.st
+          let seen' := if reloadTo.isSome then s.seen ++ [s.st] else s.seen
+          { s with st := st', seen := seen', out := s.out ++ [expect], bad := flag bad }
+      let fin := (items.zip (implItems ++ List.replicate items.length "")).foldl step {}
+      let anyCaseDup := confs.any fun c => match c with
+        | .products ps => let l := ps.flatMap fun p => p.snis
+                          nodupB l && !nodupB (l.map lowerAscii)
+        | _ => false
+      let onlyLoads := items.all fun it => it.startsWith "L"
+      { model := ",".intercalate fin.out,
+        verdict := if anyCaseDup && !onlyLoads then "skip"   -- which product wins is decided by Go's map iteration order
+                   else match fin.bad with | some b => "FAIL:" ++ b | none => "ok",
+        tags := ["lh"] ++ (if fin.out.contains "rej" then ["lh-rejected-reload"] else []) ++
+                (if (fin.out.filter (· == "ok")).length ≥ 2 then ["lh-two-accepted"] else []) ++
+                (if script.contains "N!" then ["lh-reload-in-flight"] else []) ++ (if fin.st.isSome then ["nt"] else []) }
+    | _, _ => { model := "bad-op", verdict := "skip" }
+  | _ => { model := "bad-op", verdict := "skip" }
+
 def run (op impl : String) : Ans :=
   match op.splitOn " " with
   | "hs" :: f => runHs f impl
+  | "lh" :: f => runLh f impl
+  | "rw" :: seg :: decor :: f =>
+    (match parseCase (" ".intercalate ("rch" :: f)) with
+     | none => { model := "bad-op", verdict := "skip" }
+     | some c =>
+       let m := readClientHello c.cfg c.rule c.hello c.lk
+       { model := render m, verdict := oracle c impl,
+         tags := ["rw", "seg-" ++ seg] ++ ((decor.splitOn "+").filter (· != "-")).map ("decor-" ++ ·) ++
+                 (match m with | .ok _ => ["nt"] | .error _ => []) })
   | "ee" :: f => runEe f impl
   | "eh" :: f => runEh f impl
   | "rl" :: f => runRl f impl
